@@ -8,7 +8,7 @@ scripts, delivery / answer orders enumerated depth first.  Every service invocat
 answer) is printed as a Coq term of `SeqCases.case_t`; Coq evaluates the independent sequential reading
 `SeqSem.seq_eval` (vm_compute) and the oracle `c16_oracle`:
   (1) the observed invocations are a sub-multiset of the calls the sequential reading makes,
-  (2) in a drained history they are all of them,
+  (2) in a drained history of a script in which nothing runs after a par they are all of them,
   (3) the requests issued up to a run are calls the reading reaches when only the answers handed back up to
       that run are known (no call is issued before the reading reaches it)."""
 import json
@@ -28,10 +28,14 @@ RULE = ("a case is one honest history (script of F over 3-5 peers, deterministic
 PARTIAL = [
     "C16_full (every honest history on several peers) is a Definition, not a theorem: it follows from the approximation invariant of "
     "DESIGN appendix B, which is not proved; it is decided by exploration with the Coq-evaluated reference SeqSem.seq_eval (this check)",
-    "C16_local_full (single peer, the whole fragment) is a Definition; proved: see coq/props/C16.v for the sub-fragment of the "
-    "_partial theorem",
+    "C16_local_full (single peer, the whole fragment) is a Definition; proved is C16_local_partial: straight-line scripts only "
+    "(call with literal target/service/function and literal or plain-scalar arguments, ap of a literal or a plain scalar, seq, xor, "
+    "match, mismatch, fail, null, never; for run1 and for the complete executor run2) -- par, folds, new and lenses are not covered "
+    "by the single-peer theorem",
     ":error: and %last_error% are outside the fragment of the reference evaluator (the error object carries message, instruction text "
     "and executing peer); `fail` only with a literal; fold bodies only in the four shapes with a single `next`",
+    "progress (every call of the reading is eventually executed in a drained history) is not part of the property and not promised "
+    "by the interpreter after a par; it is checked only for scripts in which nothing runs after a par (SeqCases.live_shape)",
     "the ordering oracle knows answers by (peer, service, function, arguments), not by call instance: a repeated identical call is "
     "considered known after its first answer",
 ]
